@@ -37,6 +37,22 @@ pub uninterp spec fn has_sigrefs(rid: RepoId, local: RemoteId) -> bool;
 pub uninterp spec fn protected(id: RemoteId) -> bool;
 
 pub struct Delegates { pub rid: RepoId }
+/// `Did` (derefs to the key) and the delegate list mapped to keys (`NonEmpty::map`), in identity-document order
+#[derive(Clone, Copy)] pub struct Did(pub RemoteId);
+impl std::ops::Deref for Did { type Target = RemoteId; fn deref(&self) -> (r: &RemoteId) ensures *r == self.0 { &self.0 } }
+pub struct DelegateKeys { pub rid: RepoId, pub opaque: u64 }
+impl View for DelegateKeys { type V = Set<RemoteId>; uninterp spec fn view(&self) -> Set<RemoteId>; }
+impl Delegates {
+    /// stand-in for `NonEmpty<Did>::map(|did| *did)`: ASSUMED to list exactly the delegate keys (the closure is the deref copy), unsorted
+    #[verifier::external_body]
+    pub fn map<F: FnMut(Did) -> RemoteId>(self, f: F) -> (r: DelegateKeys) ensures r.rid == self.rid, forall|id: RemoteId| r@.contains(id) <==> is_delegate(self.rid, id) { unimplemented!() }
+}
+impl DelegateKeys {
+    /// ASSUMED (slice::binary_search on a list that is NOT known to be sorted): Ok names a present element; a present
+    /// element may be reported absent
+    #[verifier::external_body]
+    pub fn binary_search(&self, k: &RemoteId) -> (r: Result<usize, usize>) ensures r is Ok ==> self@.contains(*k) { unimplemented!() }
+}
 /// stand-in for `.into_iter().map(|did| *did).collect::<BTreeSet<_>>()` over the delegates (iterator adapters):
 /// ASSUMED to produce exactly the set of delegate keys.
 #[verifier::external_body]
